@@ -9,6 +9,8 @@ CONSTANTS
   X100Skip = {}
   X100MaxN = 65536
   StreamLimits = {4096, 65536, 1048576}
+  IndexLimits = {1000, 100000}
+  IndexParts = {2, 7, 200}
   CountLimits = {50, 1000, 20000}
   Containers = {"content", "objstm", "xref", "image"}
   Emit = TRUE
